@@ -2,7 +2,10 @@ package main
 
 import (
 	"bytes"
+	"encoding/binary"
+	"encoding/json"
 	"fmt"
+	"os"
 	"sort"
 	"strings"
 	"time"
@@ -371,8 +374,73 @@ func c06RecreateWhileDeleting(c *Ctx) {
 	}
 }
 
+// c06IndexCache: two labelmap instances of one repo hold the same label ids at the same version, on a server
+// whose label-index cache is switched on ([cache] labelmap in the configuration); sizes, sparse volumes and
+// indices of a label in one instance never show the other instance's voxels
+func c06IndexCache(c *Ctx) {
+	dir := scratchDir("c06c")
+	defer os.RemoveAll(dir)
+	ch, msg := StartChild(dir, []string{"VERIF_LM_CACHE=1"})
+	if ch == nil {
+		c.Report("H", "C06 child-start", msg, "")
+		return
+	}
+	defer ch.Kill()
+	resp, _ := ch.HTTP("POST", "repos", []byte(`{"alias":"c","description":"d"}`))
+	root := jsonField(resp.Body, "root")
+	for _, n := range []string{"segA", "segB"} {
+		if r, _ := ch.HTTP("POST", "repo/"+root+"/instance", []byte(`{"typename":"labelmap","dataname":"`+n+`","BlockSize":"32,32,32"}`)); !r.OK() {
+			c.Report("H", "C06 instance", r.String(), "")
+			return
+		}
+	}
+	write := func(inst string, bx int, label uint64, nvox int) {
+		blk := make([]byte, 32*32*32*8)
+		for i := 0; i < nvox; i++ {
+			binary.LittleEndian.PutUint64(blk[i*8:], label)
+		}
+		ch.HTTP("POST", fmt.Sprintf("node/%s/%s/raw/0_1_2/32_32_32/%d_0_0", root, inst, 32*bx), blk)
+		ch.AskT("SETTLE "+root+" "+inst, 20*time.Second)
+	}
+	size := func(inst string, label uint64) string {
+		r, _ := ch.HTTP("GET", fmt.Sprintf("node/%s/%s/size/%d", root, inst, label), nil)
+		return fmt.Sprintf("%d %s", r.Code, strings.TrimSpace(string(r.Body)))
+	}
+	var hist []string
+	check := func(when string, want map[string]string) bool {
+		for _, inst := range []string{"segA", "segB", "segA"} {
+			got := size(inst, 7)
+			c.Eval("index cache "+when+" "+inst, true)
+			if !strings.Contains(got, want[inst]) {
+				c.Report("O", "C06 label-index-leaks-between-instances", "the size of a label in one labelmap instance reflects voxels of another instance (label-index cache switched on)",
+					fmt.Sprintf("%s\nGET %s/size/7 -> %s, expected to contain %q\nhistory:\n  %s", when, inst, got, want[inst], strings.Join(hist, "\n  ")))
+				return false
+			}
+		}
+		return true
+	}
+	write("segA", 0, 7, 32768)
+	hist = append(hist, "segA: block (0,0,0) all label 7 (32768 voxels)")
+	if !check("after the write to segA", map[string]string{"segA": "32768", "segB": "404"}) {
+		return
+	}
+	write("segB", 1, 7, 4096)
+	hist = append(hist, "segB: block (1,0,0) 4096 voxels of label 7")
+	if !check("after the write to segB", map[string]string{"segA": "32768", "segB": "4096"}) {
+		return
+	}
+	body, _ := json.Marshal([]uint64{7, 9})
+	write("segB", 2, 9, 100)
+	ch.HTTP("POST", "node/"+root+"/segB/merge", body)
+	ch.AskT("SETTLE "+root+" segB", 20*time.Second)
+	hist = append(hist, "segB: 100 voxels of label 9, merge [7 9]")
+	check("after a merge in segB", map[string]string{"segA": "32768", "segB": "4196"})
+	c.Count("index-cache isolation")
+}
+
 func c06Isolation(c *Ctx) {
 	c06RecreateWhileDeleting(c)
+	c06IndexCache(c)
 	OpenServer()
 	defer CloseServer()
 	r := c.Rng.Fork()
